@@ -1,12 +1,16 @@
 (* Run_C05.v — entry points evaluated by the correspondence harness for C05 (tier T1). *)
-From DV Require Export Eval Sql Nested.
+From DV Require Export Eval Sql Nested Agg.
 Open Scope list_scope.
 
 Inductive c05case :=
 | CQuery (m : emodel) (rows : db) (q : query) (ps : params)
     (* one query: SQL text, parameter list, resolution flags, status, result *)
 | CPages (m : emodel) (rows : db) (q : query) (ps : params) (n : Z) (fuel : nat)
-| CNested (Q : q2) (nodes : list node) (ps : params).
+| CNested (Q : q2) (nodes : list node) (ps : params)
+| CAgg (rows : db) (q : aquery)
+    (* tier T3, first slice: an aggregate query (groups, having, order, first / skip); result only *)
+| CJsel (docs : list (option jdoc)) (sels : list jsel) (fs : list (jsel * cmpop * val)).
+    (* tier T3, first slice: json selectors selected and filtered on, over the rows in result order *)
     (* tier T2, first slice: a query with nested entity / array references over a forest of rows *)
     (* q has order keys (all selected), no paging / first / skip: a client pages through it with
        first n + after(<keys of the last row received>) until an empty page comes back *)
@@ -41,6 +45,42 @@ Fixpoint enc_jv (j : jv) : list Z :=
   | JA l => 6 :: Z.of_nat (List.length l) :: flat_map enc_jv l
   end.
 Definition enc_jvs (l : list jv) : list Z := Z.of_nat (List.length l) :: flat_map enc_jv l.
+
+(* ---- tier T3 results ---- *)
+Definition round_div (a b : Z) : Z :=        (* a/b rounded to the nearest integer, halves away from zero; b > 0 *)
+  if Z.ltb a 0 then - ((2 * (- a) + b) / (2 * b)) else (2 * a + b) / (2 * b).
+Definition enc_cell (c : cell) : list Z :=
+  match c with CV v => enc_val v | CAvg s n => [7; round_div (s * 250000) n] end.      (* an average in millionths *)
+Definition enc_crow (r : list cell) : list Z := Z.of_nat (List.length r) :: flat_map enc_cell r.
+Fixpoint zlex (a b : list Z) : comparison :=
+  match a, b with
+  | [], [] => Eq | [], _ :: _ => Lt | _ :: _, [] => Gt
+  | x :: a', y :: b' => match Z.compare x y with Eq => zlex a' b' | c => c end
+  end.
+(* without order_by the order of the groups is not part of the answer: both sides are sorted *)
+Definition enc_cells (q : aquery) (rs : list (list cell)) : list Z :=
+  let es := map enc_crow rs in
+  let es := match a_order q with [] => isort zlex es | _ => es end in
+  Z.of_nat (List.length es) :: List.concat es.
+Fixpoint ins_dmember (kv : str * jdoc) (l : list (str * jdoc)) : list (str * jdoc) :=
+  match l with
+  | [] => [kv]
+  | h :: t => match str_cmp (fst kv) (fst h) with Gt => h :: ins_dmember kv t | _ => kv :: h :: t end
+  end.
+Fixpoint dcanon (j : jdoc) : jdoc :=
+  match j with
+  | DArr l => DArr (map dcanon l)
+  | DObj l => DObj (fold_right ins_dmember [] (map (fun kv : str * jdoc => (fst kv, dcanon (snd kv))) l))
+  | _ => j
+  end.
+Fixpoint enc_doc (j : jdoc) : list Z :=
+  match j with
+  | DNull => [0] | DBool b => [1; zb b] | DInt z => [2; z] | DStr s => 4 :: enc_str s
+  | DArr l => 6 :: Z.of_nat (List.length l) :: flat_map enc_doc l
+  | DObj l => 5 :: Z.of_nat (List.length l) :: flat_map (fun kv : str * jdoc => enc_str (fst kv) ++ enc_doc (snd kv)) l
+  end.
+Definition enc_docs (rs : list (list jdoc)) : list Z :=
+  Z.of_nat (List.length rs) :: flat_map (fun r => Z.of_nat (List.length r) :: flat_map (fun d => enc_doc (dcanon d)) r) rs.
 
 (* ---- the paging client ---- *)
 Definition cursor_name (j : nat) : str := 99%N :: repeat 48%N j.          (* c, c0, c00, ... *)
@@ -100,6 +140,8 @@ Definition run_C05 (c : c05case) : list Z :=
       let '(vo, c) := compile2 Q in
       hash_text (norm_ws (print2 c)) ++ enc_vo vo ++
       match run_query2 Q nodes ps with Some l => 0 :: enc_jvs l | None => [2] end
+  | CAgg rows q => 0 :: enc_cells q (eval_agg agg_impl rows q)
+  | CJsel docs sels fs => 0 :: enc_docs (eval_jsel docs sels fs)
   end.
 
 (* ---- decoding the implementation's observation ---- *)
@@ -193,6 +235,11 @@ Definition spec_C05 (c : c05case) (obs : list Z) : bool :=
                    end
       | None => false
       end
+  | CAgg rows q =>
+      (* the answer is the direct evaluation: aggregates by the values of the fields, absent values left out *)
+      zlist_eqb obs (0 :: enc_cells q (eval_agg agg_spec rows q))
+  | CJsel docs sels fs =>
+      zlist_eqb obs (0 :: enc_docs (eval_jsel docs sels fs))
   end.
 
 
@@ -267,6 +314,27 @@ Fixpoint known_nested (Q : q2) (nodes : list node) (ps : params) {struct Q} : li
       flat_map (fun p : subinfo * q2 => known_nested (snd p) (flat_map (fun nd => nth (si_ref (fst p)) (nrefs nd) []) nodes) ps) subs
   end.
 
+(* T3: a group (of the rows that pass the filters) on which an aggregate of the selection, as query.rs computes it,
+   is not the aggregate of the values:
+     9  min / max compare the JSON texts of the values (10 < 9, null above every number)
+     10 avg divides by the number of rows of the group, absent values counted as 0 *)
+Definition cell_eqb (a b : cell) : bool :=
+  match a, b with
+  | CV x, CV y => val_eqb x y
+  | CAvg s n, CAvg s' n' => Z.eqb s s' && Z.eqb n n'
+  | _, _ => false
+  end.
+Definition agg_differs (pick : afn -> bool) (rows : db) (q : aquery) : bool :=
+  existsb (fun g => existsb (fun c => match c with
+                                      | GAgg a => pick a && negb (cell_eqb (agg_impl g a) (agg_spec g a))
+                                      | GField _ => false
+                                      end) (a_cols q))
+          (all_groups (a_cols q) (filter (passes (a_where q)) rows)).
+Definition is_minmax (a : afn) : bool := match a with AMax _ | AMin _ => true | _ => false end.
+Definition is_avg (a : afn) : bool := match a with AAvg _ => true | _ => false end.
+Definition known_agg (rows : db) (q : aquery) : list Z :=
+  cls (agg_differs is_minmax rows q) 9 ++ cls (agg_differs is_avg rows q) 10.
+
 Definition known_C05 (c : c05case) : list Z :=
   match c with
   | CQuery m rows q ps => known_query m rows q ps
@@ -274,6 +342,8 @@ Definition known_C05 (c : c05case) : list Z :=
       cls (k_paging (List.length (q_order q)) m rows q ps || k_ties m rows q ps) 1 ++
       cls (k_rawkey m rows q) 2 ++ cls (k_booldefault m rows q) 3 ++ cls (k_nullvar q ps) 6
   | CNested Q nodes ps => known_nested Q nodes ps
+  | CAgg rows q => known_agg rows q
+  | CJsel _ _ _ => []
   end.
 
 (* ---- what the real parser and parameter validation guarantee (hypotheses of the theorems) ---- *)
@@ -320,6 +390,7 @@ Definition text_C05 (c : c05case) : list Z :=
   | CQuery m rows q ps => map Z.of_N (norm_ws (print m (snd (compile m q))))
   | CPages _ _ _ _ _ _ => []
   | CNested Q _ _ => map Z.of_N (norm_ws (print2 (snd (compile2 Q))))
+  | CAgg _ _ | CJsel _ _ _ => []
   end.
 
 (* diagnostic: are the hypotheses of the theorems met by a case? (evaluated by the harness statistics) *)
@@ -328,6 +399,10 @@ Definition wf_C05 (c : c05case) : list Z :=
   | CQuery m rows q ps => [zb (wf_query m q); zb (params_ok q ps)]
   | CPages m rows q ps n fuel => [zb (wf_pages m q ps); zb (Z.ltb 0 n && Nat.ltb (List.length rows) fuel)]
   | CNested Q nodes ps => [zb (q2_ok Q ps); 1]
+  | CAgg rows q => [1; 1]
+  | CJsel docs sels fs =>
+      (* a filter is only put on a selector that never selects an array or an object *)
+      [zb (forallb (fun d => forallb (fun f : jsel * cmpop * val => negb (is_container (dsel d (fst (fst f))))) fs) docs); 1]
   end.
 
 Definition eval_C05 (c : c05case) (obs : list Z) : list Z :=
